@@ -36,7 +36,7 @@ class Simple:
         return self._term
 
     def meta(self):
-        m = {"suite": self._line.split()[0], "kind": self.kind, "line": self._line[:4000]}
+        m = {"suite": self._line.split()[0], "kind": self.kind, "line": self._line[:400000]}
         m.update(self.extra)
         return m
 
